@@ -673,6 +673,9 @@ def identity_oracle(form, case, declared, vals, kw, result):
             continue
         if gotkeys.get(k, 0) and k not in supplied:
             rep["bad"] = "survives"
+            rep["key_name"], rep["key_is_declared"] = k[1], k in dkeys
+            surv = [x for _, x in got if okey(x) == k]
+            rep["key_leaf"] = ser(surv[0]) if surv else None
             rep["detail"] = "%s is still in the result although the value %s was supplied for it" % (list(k), v)
             return rep
     # (b) nothing foreign appears
@@ -684,8 +687,11 @@ def identity_oracle(form, case, declared, vals, kw, result):
             return rep
     # (c) a clean renaming (every value an atom, injective, no value already in the form unless it is a replaced
     #     symbol itself): region by region the occurrences of the result are exactly the renamed occurrences
-    atom_vals = all(isinstance(v, sympy.Basic) and not v.args and hasattr(v, "name") and okey_safe(v) is not None
-                    for v in target.values())
+    from sympde.topology.space import ScalarFunction, VectorFunction
+    from sympde.core.basic import Constant
+    isfun = lambda x: isinstance(x, (ScalarFunction, VectorFunction))
+    # a function for a function, a function or a constant for a constant: no operator re-evaluates (grad(constant) = 0 ..)
+    atom_vals = all(isfun(v) or (isinstance(v, Constant) and k[0] == "Constant") for k, v in target.items())
     if atom_vals:
         vk = [okey(v) for v in target.values()]
         others = {okey(x) for _, x in orig} - set(target)
@@ -749,7 +755,11 @@ def run_case(case):
         declared = list(form.variables)
         trials, tests = [], [ser(x) for x in form.variables]
     body = ser_body(form.expr)
-    res["form"] = {"trials": trials, "tests": tests, "body": body}
+    # the iteration order of the Python set of function atoms (hash-seed dependent; an input of the model, which
+    # registers ONE free symbol per name: the last one of this order)
+    from sympde.topology.space import ScalarFunction, VectorFunction
+    atoms = [ser(x) for x in form.expr.atoms(ScalarFunction, VectorFunction)]
+    res["form"] = {"trials": trials, "tests": tests, "body": body, "atoms": atoms}
     decl_leaves = trials + tests
     dkeys = {okey(d) for d in declared}
     # free symbols, independently of the implementation: every function of the integrands that is not (by class, name
@@ -767,10 +777,21 @@ def run_case(case):
                    "field_leaves": [free_f[k] for k in sorted(free_f)]}
     res["free_impl"] = {"fields": sorted(json.dumps(ser(x), sort_keys=True) for x in form.fields),
                         "consts": sorted(x.name for x in form.constants),
-                        "names": sorted(form.get_free_variables())}
+                        "names": sorted(form.get_free_variables()),
+                        # the ONE symbol that the implementation registers under each name (last of a set iteration)
+                        "table": {n: ser(x) for n, x in form.get_free_variables().items()}}
     # the attributes of the base class (anchored): the integration domain(s) recorded for the form
     dom0 = BasicForm.domain.fget(form)
     res["base"] = {"domain": str(dom0), "domain_is_form_domain": dom0 is form.domain, "ldim": str(BasicForm.ldim.fget(form))}
+    # the third arm of BasicForm.fields (an object that is neither linear nor bilinear: every function is a field)
+    try:
+        from sympde.expr.expr import Functional
+        i0 = integrals_of(form.expr)[0]
+        fn = Functional(i0.expr, w.domain)
+        res["base"]["functional_fields_are_all_functions"] = \
+            {okey(x) for x in fn.fields} == {okey(x) for x in i0.expr.atoms(ScalarFunction, VectorFunction)}
+    except Exception as e:  # noqa
+        res["base"]["functional_fields_err"] = "%s: %s" % (type(e).__name__, str(e)[:100])
     res["lowered"] = lowered(form.expr, w)
     conc = Conc(case["seed"], case["dim"], case["functions"])
     pts = [conc.point() for _ in range(2)]
@@ -872,7 +893,9 @@ def run_case(case):
             values = None if vals_obj is None else list(zip(decl_leaves, [ser(v) for v in vals_obj]))
             if values is None:
                 orc["skipped"] = "arity"
-            elif any(shape_of(t) not in (None, d["v"]) for d, t in values):
+            elif any(shape_of(t) not in (None, d["v"]) for d, t in values) or \
+                    any(shape_of(t) not in (None, fl["v"]) for n, t in out["kw"] for fl in res["free"]["field_leaves"] if fl["n"] == n) or \
+                    any(shape_of(t) is True for n, t in out["kw"] if n in res["free"]["consts"]):
                 orc["skipped"] = "shape"        # a vector where a scalar was declared (or the converse)
             else:
                 def keys_of(n):
@@ -903,6 +926,15 @@ def run_case(case):
                             senv2[k] = conc.ev(t, senv)
                         senv = senv2
                     orc["sequential_predicts_got"] = same_values(eval_body(conc, body, senv, pts), got)
+                    # what "one symbol per keyword name" predicts (the symbol that the implementation's name table holds)
+                    oenv = {}
+                    for d, t in values:
+                        oenv[fkey(d)] = conc.ev(t, {})
+                    for n, t in out["kw"]:
+                        tl = res["free_impl"]["table"].get(n)
+                        if tl is not None:
+                            oenv[fkey(tl) if tl["l"] == "fun" else ("const", n)] = conc.ev(t, {})
+                    orc["one_symbol_per_name_predicts_got"] = same_values(eval_body(conc, body, oenv, pts), got)
         except Unsupported as e:
             orc["unsupported"] = str(e)
         if "direct_body" in out:
